@@ -177,7 +177,7 @@ fn declared(run: &LibRun) -> Result<BTreeMap<String, BTreeSet<String>>, String> 
 /// type mappings that go with a names project
 fn names_mappings(name: &str) -> Vec<(String, String)> {
     if name == "mapped" {
-        vec![("Uuid".into(), "string".into()), ("Timestamp".into(), "number".into()), ("PathBuf".into(), "string".into())]
+        vec![("Uuid".into(), "string".into()), ("Timestamp".into(), "number".into()), ("PathBuf".into(), "string".into()), ("Money".into(), "string".into())]
     } else {
         vec![]
     }
@@ -196,7 +196,7 @@ fn names_project(name: &str) -> Option<Project> {
     }
     if name == "mapped" {
         return Some(Project::single(format!(
-            "{}use tauri::ipc::Channel;\nuse tauri::{{AppHandle, Emitter}};\n#[derive(Serialize, Deserialize)]\npub struct Job {{ pub id: Uuid, pub at: Option<Timestamp>, pub files: Vec<PathBuf>, pub by: HashMap<String, Uuid> }}\n#[tauri::command]\npub fn start(id: Uuid, on_finished: Channel<Uuid>, on_ticks: Channel<Vec<Timestamp>>, on_last: Channel<Option<Timestamp>>, on_job: Channel<Job>) -> Vec<Uuid> {{ vec![] }}\n#[tauri::command]\npub fn paths(at: Timestamp) -> HashMap<String, Vec<PathBuf>> {{ todo!() }}\npub fn fire(app: &AppHandle, ids: Vec<Uuid>) {{ app.emit(\"ids\", ids).unwrap(); }}\n",
+            "{}use tauri::ipc::Channel;\nuse tauri::{{AppHandle, Emitter}};\n#[derive(Serialize, Deserialize)]\npub struct Job {{ pub id: Uuid, pub at: Option<Timestamp>, pub files: Vec<PathBuf>, pub by: HashMap<String, Uuid> }}\n#[tauri::command]\npub fn start(id: Uuid, on_finished: Channel<Uuid>, on_ticks: Channel<Vec<Timestamp>>, on_last: Channel<Option<Timestamp>>, on_job: Channel<Job>) -> Vec<Uuid> {{ vec![] }}\n#[tauri::command]\npub fn paths(at: Timestamp) -> HashMap<String, Vec<PathBuf>> {{ todo!() }}\npub fn fire(app: &AppHandle, ids: Vec<Uuid>) {{ app.emit(\"ids\", ids).unwrap(); }}\n#[derive(Serialize, Deserialize)]\npub struct Money {{ pub amount: i64, pub currency: Currency }}\n#[derive(Serialize, Deserialize)]\npub enum Currency {{ Eur, Usd }}\n#[derive(Serialize, Deserialize)]\npub struct Invoice {{ pub total: Money, pub lines: Vec<Money> }}\n#[tauri::command]\npub fn get_invoice(id: Uuid) -> Invoice {{ todo!() }}\npub fn paid(app: &AppHandle, i: Invoice) {{ app.emit(\"paid\", i).unwrap(); }}\n",
             gen::PRELUDE
         )));
     }
